@@ -50,9 +50,7 @@ EXTENDS Integers, Sequences, FiniteSets, SequencesExt, FiniteSetsExt, TLC
 CONSTANTS
   ChanSeq,    \* channel names (strings) in stream order (= order of their storage keys)
   MaxLen,     \* bound on a source log / number of metadata keys
-  Kinds,      \* subset of {"msg", "meta"}
-  Apis,       \* subset of {"reader", "bytes"}
-  PageSizes,  \* page sizes tried (rows / entries per install batch)
+  Cfgs,       \* instances tried: records [kind : {"msg","meta"}, api : {"reader","bytes"}, ps : page size]
   BadVariants,\* stream mutations tried (strings), see Applicable
   MaxAppends, \* bound on probe appends on the target
   MaxAttempts \* bound on import attempts
@@ -108,7 +106,7 @@ Init ==
   /\ imp = Idle
   /\ attempts = 0
   /\ appends = 0
-  /\ cfg \in [kind : Kinds, api : Apis, ps : PageSizes]
+  /\ cfg \in Cfgs
   /\ ev = [a |-> "Init", cfg |-> cfg, maxLen |-> MaxLen]
 
 Building == ~exp.ok /\ imp.st = "idle"      \* the source is frozen once an export exists
